@@ -37,6 +37,7 @@ type verifC23Sched struct {
 	post  map[int]bool // gate opened
 	gateB *cache2Bucket
 	gateL bool
+	invHold *cache2Bucket // bucket whose mutex parks the running invalidate
 	inv   map[int]chan struct{}
 	trimG chan any // driver-owned trim pass (nil: none)
 	trimH bool     // debugLogMu held
@@ -180,15 +181,25 @@ func (s *verifC23Sched) getEnd(g int) {
 	})
 }
 
-func (s *verifC23Sched) invBegin(i int, positions []int) {
+// invBegin starts an invalidate call and parks it at the bucket of key `at` (default: the first
+// dummy bucket), i.e. after it has read its clock and while shard.invalidateIter points to the
+// bucket behind that one
+func (s *verifC23Sched) invBegin(i int, positions []int, at string) {
 	if s.gateB == nil || s.bucket("~gate1") != s.gateB {
 		s.makeGateBuckets()
+	}
+	hold := s.gateB
+	if at != "" {
+		if b := s.bucket(at); b != nil {
+			hold = b
+		}
 	}
 	var times []int64
 	for _, p := range positions {
 		times = append(times, s.base+int64(p-1)*s.cs*verifC23Step+int64(i%int(s.cs*verifC23Step)))
 	}
-	s.gateB.mu.Lock()
+	hold.mu.Lock()
+	s.invHold = hold
 	s.gateL = true
 	done := make(chan struct{})
 	s.inv[i] = done
@@ -196,13 +207,17 @@ func (s *verifC23Sched) invBegin(i int, positions []int) {
 		defer close(done)
 		s.e.invalidate(times, verifC23Step)
 	}()
-	// parked at the gate bucket <=> the shard's invalidate cursor points behind it
+	// parked at the held bucket <=> the shard's invalidate cursor points to its successor
 	if !verifC23WaitCond(s.e.deadline, func() bool {
 		s.shard.mu.Lock()
 		defer s.shard.mu.Unlock()
-		return s.shard.invalidateIter != nil
+		want := s.shard.bucketL.next(hold)
+		if want == nil {
+			return verifC23Parked("cache2Bucket).invalidate")
+		}
+		return s.shard.invalidateIter == want
 	}) {
-		s.note("invalidate %d did not reach the gate bucket", i)
+		s.note("invalidate %d did not reach the bucket it should park at", i)
 	}
 }
 
@@ -213,7 +228,7 @@ func (s *verifC23Sched) invApply(i int) {
 	}
 	if s.gateL {
 		s.gateL = false
-		s.gateB.mu.Unlock()
+		s.invHold.mu.Unlock()
 	}
 	select {
 	case <-done:
@@ -297,11 +312,18 @@ func (s *verifC23Sched) step(st verifkit.Step) {
 	case "GetEnd":
 		s.getEnd(st.Int("g"))
 	case "InvBegin":
-		s.invBegin(st.Int("i"), ints("T"))
+		s.invBegin(st.Int("i"), ints("T"), st.Str("at"))
 	case "InvApply":
 		s.invApply(st.Int("i"))
 	case "Trim":
 		s.trim(key, ints("T"))
+	case "RemoveBucket": // what reduceMemoryUsage / trimAged do to a bucket they decided to drop
+		if b := s.bucket(key); b != nil {
+			s.e.tr.Emit("Note", "what", "removeBucket", "key", key)
+			info := cache2UpdateInfo{}
+			s.shard.removeBucket(b, &info)
+			s.e.c.updateRuntimeInfo(s.shard.stepS, b.fau, &info)
+		}
 	case "Reset":
 		s.e.tr.Emit("Note", "what", "reset")
 		s.e.c.reset()
@@ -409,7 +431,7 @@ func (s *verifC23Sched) loadBeginQuick(r *verifC23Req, expected bool) bool {
 func verifC23RunSchedule(res *verifkit.Result, run int, cs int, steps []verifkit.Step, kind string) []map[string]any {
 	tr := verifkit.NewTrace()
 	tr.Emit("Reset", "run", run, "cfg", map[string]any{"kind": kind, "cs": cs, "steps": len(steps)})
-	e := verifC23NewEnv(tr, res, cs, 0, []string{"k", "~gate1", "~gate2", "j"})
+	e := verifC23NewEnv(tr, res, cs, 0, []string{"k", "~gate1", "~gate2", "j", "m"})
 	e.inflight = false
 	s := &verifC23Sched{e: e, cs: int64(cs), key: "k", reqs: map[int]*verifC23Req{}, rel: map[int]bool{}, post: map[int]bool{}, inv: map[int]chan struct{}{}}
 	s.shard = e.c.shards[verifC23Step*time.Second]
